@@ -123,7 +123,8 @@ def modulo(left: float | int, right: float | int) -> float | int:
         # the reference implementation) give the remainder the sign of the divisor.
         if rem and (rem < 0) != (divisor < 0):
             rem += divisor
-        return float(rem)
+        # A zero remainder keeps the sign of the dividend in Decimal: no -0.0.
+        return float(rem) + 0.0
     except ZeroDivisionError as err:
         raise LiquidTypeError(
             f"can't divide by {right}",
